@@ -196,7 +196,7 @@ def _borrowed_local(body, tmp, depth=8):
                 cur = p["l"]
                 continue
             return p["l"]
-        if rv["k"] == "use":
+        if rv["k"] in ("use", "cast"):
             p = op_place(rv["op"])
             if p is not None and not p["p"]:
                 cur = p["l"]
